@@ -541,16 +541,12 @@ func runC15(c *Ctx) {
 	gp := c.pkg("generator")
 	nrange := 0
 	for _, fd := range allFuncDecls(gp) {
-		ast.Inspect(fd.Body, func(n ast.Node) bool {
-			if rs, ok := n.(*ast.RangeStmt); ok {
-				if _, isMap := gp.TypesInfo.TypeOf(rs.X).Underlying().(*types.Map); isMap {
-					nrange++
-					c.viol("C15.R6", funcKey(gp, fd)+"|map-range", c.pos(rs.Pos()), "the generator ranges over a map: emission order would depend on Go's randomised map iteration")
-				}
-			}
-			return true
-		})
+		for _, rs := range findMapRanges(gp.TypesInfo, fd.Body) {
+			nrange++
+			c.viol("C15.R6", funcKey(gp, fd)+"|map-range", c.pos(rs.Pos()), "the generator ranges over a map: emission order would depend on Go's randomised map iteration")
+		}
 	}
+	controlMapRange(c)
 	c.ok("C15.R6", pkgGenerator+"|no-map-iteration", "", fmt.Sprintf("%d range-over-map statements in package generator", nrange))
 	determinismEffects(c, "C15.R6")
 }
